@@ -136,6 +136,14 @@ def run_one(item):
     S.count("executions")
     try:
         files = cppbuild.generate_cpp(fcp)
+        # generating again from the SAME parsed object gives the same headers (whatever the first run left behind in it)
+        S.count("executions")
+        again = cppbuild.generate_cpp(fcp)
+        if {k: cppbuild.mask(v) for k, v in again.items()} != {k: cppbuild.mask(v) for k, v in files.items()}:
+            changed = sorted(k for k in set(files) | set(again) if cppbuild.mask(files.get(k, "")) != cppbuild.mask(again.get(k, "")))
+            S.add("outcomes", "second-generation-differs")
+            S.violation("C03.generate", "C03.generate/second-generation-from-the-same-object-differs/schema:%s" % (label.split("|")[1] if "|" in label else label), inp, expected="the headers of the first generation", actual=changed)
+            files = again  # and it is the second set that has to compile
     except Exception as e:  # noqa
         S.violation("C03.generate", "C03.generate/exception:%s/schema:%s" % (type(e).__name__, label.split("|")[1] if "|" in label else label), inp, expected="headers", actual="%s: %s" % (type(e).__name__, str(e)[:200]))
         return S
